@@ -24,6 +24,7 @@ type Prop struct {
 	Assumptions []string
 	Outside     []string // explicitly outside the claim
 	Technique   string
+	Filter      func(f Finding) bool // which findings of the (shared) jobs belong to this property (nil: all)
 }
 
 var props = map[string]*Prop{}
@@ -203,7 +204,7 @@ func runReplay(casePath string) (string, string, error) {
 	}
 	sb.WriteString("} {\n\t\tb, _ := hex.DecodeString(h)\n\t\tverifTapeBytes = append(verifTapeBytes, b)\n\t}\n")
 	fmt.Fprintf(&sb, "\tverifClampCap = %v\n", rc.Clamp)
-	sb.WriteString("\tdone := make(chan string, 1)\n\tgo func() {\n\t\tdefer func() {\n\t\t\tif r := recover(); r != nil {\n\t\t\t\tif _, ok := r.(verifAssumption); ok {\n\t\t\t\t\tdone <- \"ASSUME\"\n\t\t\t\t\treturn\n\t\t\t\t}\n\t\t\t\tdone <- fmt.Sprintf(\"PANIC: %v\", r)\n\t\t\t\treturn\n\t\t\t}\n\t\t\tif len(verifFailures) > 0 {\n\t\t\t\tdone <- \"ASSERT:\" + strings.Join(verifFailures, \",\")\n\t\t\t\treturn\n\t\t\t}\n\t\t\tdone <- \"OK\"\n\t\t}()\n")
+	sb.WriteString("\tdone := make(chan string, 1)\n\tgo func() {\n\t\tdefer func() {\n\t\t\tif r := recover(); r != nil {\n\t\t\t\tif _, ok := r.(verifAssumption); ok {\n\t\t\t\t\tdone <- \"ASSUME\"\n\t\t\t\t\treturn\n\t\t\t\t}\n\t\t\t\tdone <- fmt.Sprintf(\"PANIC: %v ASSERT:%s\", r, strings.Join(verifFailures, \",\"))\n\t\t\t\treturn\n\t\t\t}\n\t\t\tif len(verifFailures) > 0 {\n\t\t\t\tdone <- \"ASSERT:\" + strings.Join(verifFailures, \",\")\n\t\t\t\treturn\n\t\t\t}\n\t\t\tdone <- \"OK\"\n\t\t}()\n")
 	var args []string
 	for _, a := range rc.Args {
 		args = append(args, strconv.FormatInt(a, 10))
@@ -275,7 +276,10 @@ func replayMatches(expect, got string) bool {
 		return got == "HANG"
 	case strings.HasPrefix(expect, "ASSERT:"):
 		id := strings.TrimPrefix(expect, "ASSERT:")
-		return strings.HasPrefix(got, "ASSERT:") && strings.Contains(got, id)
+		if i := strings.Index(got, "ASSERT:"); i >= 0 {
+			return strings.Contains(got[i:], id)
+		}
+		return false
 	}
 	return false
 }
@@ -433,6 +437,9 @@ func cmdCheck(args []string) int {
 			reach[r.Job.Func+":"+k] += v
 		}
 		for _, f := range r.Findings {
+			if p.Filter != nil && !f.Job.Twin && !p.Filter(f) {
+				continue
+			}
 			if _, ok := findings[f.Key]; !ok {
 				findings[f.Key] = f
 				order = append(order, f.Key)
